@@ -33,6 +33,12 @@ def cases(draw):
     eps = draw(st.one_of(gen.eps_values(recipe["n"], m, cheap=False).map(lambda e: max(e, 2.0 ** (1 - m))),
                          st.sampled_from([1e-4, 1e-3, 0.01, 0.05])))
     params = {"r": draw(gen.r_values), "eps": eps, "itersLimit": draw(iters)}
+    dt = draw(st.sampled_from(["int", "int", "np64", "np32"]))
+    if dt != "int":
+        recipe = dict(recipe, density_type=dt)      # the density given as a numpy integer scalar
+    sp = draw(gen.start_points(recipe))
+    if sp is not None:
+        params["startPoint"] = sp                   # every trial point, the first included, lies on the grid
     return {"recipe": recipe, "params": params, "drive": draw(st.sampled_from(["solve", "steps"]))}
 
 
@@ -58,7 +64,9 @@ def body(case):
                 fail("evolventDensity=%d: coordinate %d of trial %d, %r, is not lower+(j+1/2)*(upper-lower)/2^%d "
                      "(grid position %r) on box [%r, %r]" % (m, i, k + 1, v, m, c + 0.5, a, b))
     n = len(run.problem.log)
-    return (m != 10 and n >= 5), ["m=%d" % m, "N=%d" % recipe["n"], "drive=" + case["drive"]]
+    return (m != 10 and n >= 5), ["m=%d" % m, "N=%d" % recipe["n"], "drive=" + case["drive"],
+                                  "density-as=" + recipe.get("density_type", "int"),
+                                  "startPoint" if case["params"].get("startPoint") else "no-startPoint"]
 
 
 def generated(ctx):
